@@ -58,6 +58,7 @@ type h2stream struct {
 	out      []byte // DATA still to send
 	outEnd   bool   // END_STREAM goes out with the last byte of out
 	outDone  bool
+	outTrail []hpack.HeaderField // trailing header fields that end our message (sent once the body is out)
 	grants   int
 	req      *ReqRec
 	up       *UpRec
@@ -107,7 +108,7 @@ type H2End struct {
 	// Violation sink (property C18)
 	Viol func(class, format string, a ...any)
 	// statistics
-	DataFrames, FlowChecks, Stalls, Grants, SizeUpdatesSeen, Continuations, EmptyEnds, WinChanges int
+	DataFrames, FlowChecks, Stalls, Grants, SizeUpdatesSeen, Continuations, EmptyEnds, WinChanges, TrailersSent int
 	// callbacks
 	OnMessage func(e *H2End, st *h2stream) // a complete message (headers [+ body]) arrived
 	Kick      func()                       // there may be streams waiting for credit: (re)start the world's credit events
@@ -543,11 +544,21 @@ func (e *H2End) encode(fields []hpack.HeaderField) []byte {
 
 // SendMessage sends a header block and (optionally) a body on stream id.
 func (e *H2End) SendMessage(st *h2stream, fields []hpack.HeaderField, body []byte) {
+	e.SendMessageT(st, fields, body, nil)
+}
+
+// SendMessageT: ... and trailing header fields behind a non-empty body.
+func (e *H2End) SendMessageT(st *h2stream, fields []hpack.HeaderField, body []byte, trailers []KV) {
 	ch := e.S.Ch
 	block := e.encode(fields)
+	if len(body) > 0 {
+		for _, kv := range trailers {
+			st.outTrail = append(st.outTrail, hpack.HeaderField{Name: kv.K, Value: kv.V})
+		}
+	}
 	// the message may end with an empty DATA frame that only carries END_STREAM (legal, and what some
 	// implementations do when they learn late that the body is complete)
-	st.emptyEnd = ch.Chance("seg", "h2emptyend", 1, 4)
+	st.emptyEnd = ch.Chance("seg", "h2emptyend", 1, 4) && len(st.outTrail) == 0
 	endStream := len(body) == 0 && !st.emptyEnd
 	first := block
 	var rest []byte
@@ -595,7 +606,7 @@ func (e *H2End) pump() {
 	}
 	for _, id := range ids {
 		st := e.streams[id]
-		if len(st.out) == 0 && st.outEnd && !st.outDone {
+		if len(st.out) == 0 && st.outEnd && !st.outDone && len(st.outTrail) == 0 {
 			_ = e.fr.WriteData(st.id, true, nil) // the empty final frame costs no credit
 			st.outDone = true
 			e.EmptyEnds++
@@ -619,7 +630,7 @@ func (e *H2End) pump() {
 				e.Stalls++
 				break
 			}
-			end := st.outEnd && int(n) == len(st.out) && !st.emptyEnd
+			end := st.outEnd && int(n) == len(st.out) && !st.emptyEnd && len(st.outTrail) == 0
 			if e.O.Pad && n > 1 && ch.Chance("seg", "h2datapad", 1, 4) {
 				// padding counts against the windows too: 1 length byte + p padding bytes
 				p := int64(1 + ch.Pick("seg", "h2datapadlen", 20))
@@ -646,6 +657,12 @@ func (e *H2End) pump() {
 			_ = e.fr.WriteData(st.id, true, nil)
 			st.outDone = true
 			e.EmptyEnds++
+		}
+		if len(st.out) == 0 && st.outEnd && !st.outDone && len(st.outTrail) > 0 {
+			// the trailing header block ends the message (encoded now: the table state is that of this instant)
+			_ = e.fr.WriteHeaders(http2.HeadersFrameParam{StreamID: st.id, BlockFragment: e.encode(st.outTrail), EndStream: true, EndHeaders: true})
+			st.outDone = true
+			e.TrailersSent++
 		}
 	}
 	e.flush()
@@ -722,6 +739,9 @@ func fieldsOf(m *H1Msg, authority string) []hpack.HeaderField {
 
 func msgOf(st *h2stream, isReq bool) *H1Msg {
 	m := &H1Msg{IsReq: isReq, Body: st.body}
+	for _, f := range st.trailers {
+		m.Trailers = append(m.Trailers, KV{K: f.Name, V: f.Value})
+	}
 	for _, f := range st.fields {
 		switch f.Name {
 		case ":method":
@@ -765,7 +785,7 @@ func (c *H2Client) SendReq(r *ReqRec) {
 	st.req = r
 	c.byStream[st.id] = r
 	r.ConnID, r.Client, r.ID = c.Conn.ID, c.Name, uint64(st.id)
-	c.SendMessage(st, fieldsOf(r.HReq, "svc.test"), r.HReq.Body)
+	c.SendMessageT(st, fieldsOf(r.HReq, "svc.test"), r.HReq.Body, r.HReq.Trailers)
 	r.SentAt = c.S.Now()
 	c.S.Logf("h2 client %s send req#%d stream=%d body=%dB", c.Name, r.Idx, st.id, len(r.HReq.Body))
 	if c.Kick != nil {
@@ -891,7 +911,7 @@ func (u *H2Upstream) onRequest(e *H2End, st *h2stream) {
 		if up.Act.Err {
 			rm.Status = 503
 		}
-		u.SendMessage(st, fieldsOf(rm, ""), rm.Body)
+		u.SendMessageT(st, fieldsOf(rm, ""), rm.Body, rm.Trailers)
 		up.Sent = append(up.Sent, rm.Body)
 		// SETTINGS_HEADER_TABLE_SIZE changes in the middle of the connection's life: after the k-th answer
 		if k := u.Requests - 1; k < len(u.O.NewWin) {
